@@ -2,8 +2,8 @@ package checks
 
 import (
 	"fmt"
-	"os"
 	"go/types"
+	"os"
 	"sort"
 	"strings"
 
@@ -98,6 +98,11 @@ func (c *Ctx) e2Evaluate(r *E1Result, recv absint.Term) {
 	if !ok {
 		return
 	}
+	c.e2EvaluateObjs(r, map[int]string{rp.Obj.ID: ""})
+}
+
+// e2EvaluateObjs: objs maps tracked object ids to a display prefix.
+func (c *Ctx) e2EvaluateObjs(r *E1Result, objs map[int]string) {
 	a := r.A
 	fnName := shortFn(r.Fn)
 	// output fields: receiver locations that some return leaves different from what the call
@@ -105,7 +110,7 @@ func (c *Ctx) e2Evaluate(r *E1Result, recv absint.Term) {
 	changed := map[absint.Loc]bool{}
 	for _, ret := range r.Rets {
 		for l := range a.Stored {
-			if l.Obj != rp.Obj.ID {
+			if _, tracked := objs[l.Obj]; !tracked {
 				continue
 			}
 			if v, present := absint.HeapValue(ret.St, l); present {
@@ -130,8 +135,8 @@ func (c *Ctx) e2Evaluate(r *E1Result, recv absint.Term) {
 	relevant := func(srcs map[absint.Loc]bool) []string {
 		var out []string
 		for s := range srcs {
-			if s.Obj == rp.Obj.ID && absint.Covers(changed, s) {
-				out = append(out, absint.PrettyLoc(s))
+			if pre, tracked := objs[s.Obj]; tracked && absint.Covers(changed, s) {
+				out = append(out, pre+absint.PrettyLoc(s))
 			}
 		}
 		sort.Strings(out)
@@ -159,7 +164,7 @@ func (c *Ctx) e2Evaluate(r *E1Result, recv absint.Term) {
 		}
 		nSucc++
 		for _, l := range stored {
-			f := absint.PrettyLoc(l)
+			f := objs[l.Obj] + absint.PrettyLoc(l)
 			v, present := absint.HeapValue(ret.St, l)
 			if !present {
 				set(f, report.Violated, fmt.Sprintf("field %s is written on some paths of %s but a successful return exists on which it keeps whatever an earlier parse left (path: %s)", f, fnName, strings.Join(ret.St.Trace, " → ")))
@@ -180,8 +185,8 @@ func (c *Ctx) e2Evaluate(r *E1Result, recv absint.Term) {
 	for _, tb := range a.TaintBranches {
 		var srcs []string
 		for _, s := range tb.Srcs {
-			if s.Obj == rp.Obj.ID && absint.Covers(changed, s) {
-				srcs = append(srcs, absint.PrettyLoc(s))
+			if pre, tracked := objs[s.Obj]; tracked && absint.Covers(changed, s) {
+				srcs = append(srcs, pre+absint.PrettyLoc(s))
 			}
 		}
 		if len(srcs) == 0 {
@@ -228,13 +233,27 @@ func runC03(c *Ctx) {
 	entries = append(entries, body...)
 	entries = append(entries, ext...)
 	entries = append(entries, frame...)
-	recvs := make(map[*ssa.Function]absint.Term)
+	recvs := make(map[*ssa.Function]map[int]string)
 	var mu = &c.mu
 	results := c.RunE1(entries, false, func(a *absint.Analyzer, fn *ssa.Function, st *absint.State, args []absint.Term) {
 		preJTMsg(a, fn, st, args)
 		a.TrackObj(st, args[0], fn.Params[0].Type())
+		objs := map[int]string{args[0].(*absint.Ptr).Obj.ID: ""}
+		if fn.Name() == "Decode" && strings.HasSuffix(fn.Params[0].Type().String(), "jt808.JTMessage") {
+			// the frame decoder's outputs live in *Header and *BodyProperty
+			if hp := a.TrackField(st, args[0], fn.Params[0].Type(), "Header"); hp != nil {
+				objs[hp.Obj.ID] = "Header."
+				ht, _ := a.LoadField(st, args[0], fn.Params[0].Type(), "Header")
+				_ = ht
+				if _, hft := a.LoadField(st, args[0], fn.Params[0].Type(), "Header"); hft != nil {
+					if pp := a.TrackField(st, hp, hft, "Property"); pp != nil {
+						objs[pp.Obj.ID] = "Header.Property."
+					}
+				}
+			}
+		}
 		mu.Lock()
-		recvs[fn] = args[0]
+		recvs[fn] = objs
 		mu.Unlock()
 	})
 	n := c.AddE1(results, false)
@@ -242,7 +261,7 @@ func runC03(c *Ctx) {
 	assumed := map[string]int{}
 	analysed := map[string]bool{}
 	for _, r := range results {
-		c.e2Evaluate(r, recvs[r.Fn])
+		c.e2EvaluateObjs(r, recvs[r.Fn])
 		for k, v := range r.A.AssumedTotal {
 			assumed[k] += v
 		}
